@@ -141,6 +141,8 @@ def make_transport_harness(n_events, max_cuts):
             args, kwargs = g.pick('args%d' % i, ARGSETS) if name == 'ping' else ((), {})
             e = Event.create(name, *args, **kwargs)
             e.channels = ('app',)
+            if i == 0 and name in ('ping', 'echo') and g.flag('first_without_result'):
+                e.node_without_result = True          # fire and forget: the sender does not wait
             evs.append((name, args, kwargs, e))
             gens.append(a.proto.send(e))
         cut_no = [0]
@@ -200,6 +202,8 @@ def make_transport_harness(n_events, max_cuts):
             if not sent:
                 # refused by the send firewall: never transmitted, the sender gets an empty Value at once
                 continue
+            if getattr(e, 'node_without_result', False):
+                continue      # nothing is awaited
             if st[0] != 'value':
                 g.fail('sender-got-no-value', dict(w, event=name), 'event %d: %s; %s' % (i, st, detail))
                 continue
